@@ -84,6 +84,20 @@ for _fs in ("abc", "a"):
                      inline_calls=["copy_fields"],
                      props=["C07", "C15"])
 
+# names that contain one another (a scalar request must be matched as a whole name, never as a substring)
+_RRE = "struct[ra:int,ra_err:real,e:int]"
+for _req in ("ra_err", "ra", "e", ["ra_err"], ["e", "ra"]):
+    _names = [_req] if isinstance(_req, str) else list(_req)
+    _fields = ["ra", "ra_err", "e"]
+    contract("esutil.numpy_util.remove_fields#rre:%s" % _tag(_req), runtime_name="esutil.numpy_util.remove_fields",
+             params=dict(arr=_RRE, rmnames=_req_type(_req)),
+             ensures=dict(_result_is([f for f in _fields if f not in _names]), **_untouched("arr", _fields)),
+             inline_calls=["copy_fields"], props=["C07", "C15"])
+    contract("esutil.numpy_util.extract_fields#rre:%s" % _tag(_req), runtime_name="esutil.numpy_util.extract_fields",
+             params=dict(arr=_RRE, keepnames=_req_type(_req), strict="const:True"),
+             ensures=dict(_result_is([f for f in _fields if f in _names]), **_untouched("arr", _fields)),
+             inline_calls=["copy_fields"], props=["C07", "C15"])
+
 # ------------------------------------------------------------------------------------------------ add_fields
 _ADD = [([("d", "f8")], None), ([("d", "f8"), ("e", "i4")], None), ([("d", "f8")], [2.5]), ([("d", "i8"), ("e", "f4")], [7, 0.5]),
         ([("d", "f8")], 3.0), ([("b", "f8")], None), ([("d", "f8"), ("a", "i4")], None), ([("d", "f8"), ("e", "i4")], [1.0])]
@@ -211,7 +225,9 @@ def _rand_struct(rng, np):
             t = order + t
         elif t == "U2":
             t = order + t
-        nm = rng.choice(["f%d" % j, "ra_%d" % j, "x%d" % j, "Ab%d" % j, "id%d" % j])
+        nm = rng.choice(["f%d" % j, "ra_%d" % j, "x%d" % j, "Ab%d" % j, "id%d" % j, "ra", "ra_err", "e", "id", "idx"])
+        if nm in [d[0] for d in descr]:
+            nm = "%s_%d" % (nm, j)
         if rng.random() < 0.25:
             descr.append((nm, t, rng.choice([(2,), (2, 2)])))
         else:
